@@ -25,6 +25,8 @@ EXPLANATION = (
     "from the expression cache; ExpQMap.__setitem__ drops the qubit's previous entry; (TS-DEST) a synthesis routine "
     "handed a destination returns that destination, and registers a qubit in the expression cache only when it "
     "allocated it itself; (DP-WIRES) mcx/cx/ccx/mctrl put the target last and CNotSim/uncompute read it there. "
+    "(MP-negation) where compile_xor strips the negation of an operand it applies one X per such operand to the "
+    "accumulator (a set-only flag consumed after the loop loses the parity).  "
     "It does NOT decide equality of circuit and expressions on all inputs."
 )
 NOT_DECIDED = "equality of circuit and expressions on all inputs for expressions that respect the discipline; remove_identities' effect on a given gate list"
